@@ -51,6 +51,7 @@ def register(reg):
     reg.add(Contract(
         file=ORDER, func="decompose_and_order", variant="#orientation", fragment=("if ends[0] > ends[1]:", 2),
         params=dict(ends=ListT(INT), traversal=ListT(STR), traversal_scaffold_only=ListT(STR), coordinates=ListT(INT)),
+        modifies=["traversal", "traversal_scaffold_only", "coordinates"],
         requires=[
             "len(ends) == 2", "len(coordinates) >= 1",
             "implies(len(coordinates) >= 2, ends[0] == coordinates[0] and ends[1] == coordinates[len(coordinates) - 1])",
